@@ -37,6 +37,7 @@ struct CaseResult {
   std::string fail;   // "" = property held
   std::string json;   // decoded case, one-line JSON (for samples and replay files)
   bool discard = false;
+  bool timeout = false;  // failed by the watchdog: every further execution costs the whole time-out
 };
 // A property body decodes a case from the Chooser, runs it and reports.  `st` is
 // non-null only while cases are being counted (not while shrinking / replaying).
@@ -117,6 +118,7 @@ inline CaseResult run_isolated(const Prop& p, const std::vector<uint64_t>& words
       if (f2.timeout) again++;
     }
     if (again < 2) { r.discard = true; return r; }
+    r.timeout = true;
   }
   r.fail = fr.why;
   r.json = "{\"note\":\"child died before reporting the decoded case; replay the draws\"}";
@@ -165,6 +167,8 @@ inline int run_main(const Options& o, const std::string& prop_id, const std::vec
       if (r.discard) { if (sp) st.discards++; RC_DISCARD("discard"); }
       if (sp) st.cases++;
       if (!r.fail.empty()) {
+        // shrinking a hang costs three time-outs per attempt: keep the first few attempts only
+        if (r.timeout) shrink_attempts = std::max(shrink_attempts, shrink_budget - 3);
         failed_once = true;
         st.failures++;
         ReplayFile rf; rf.prop = prop_id; rf.name = p.name; rf.draws = draws; rf.why = r.fail; rf.json = r.json;
